@@ -413,3 +413,34 @@ for h in ["k_stream_sync_after_stray_ff_c6", "k_stream_sync_after_stray_ff_c1", 
         contract="FlacStreamReader::read sync scan: a header is tried at exactly every 0xFF followed by 1111100x, in stream order, none skipped (also when a stray 0xFF precedes it or a refill splits the sync code); "
                  "a source without a valid header yields an error, never a frame",
         stubs=["stream::FrameHeader::read_subset (records the candidate, rejects it)"], timeout=300)
+
+for h in ["k_sample_writer_write_1ch_k0_m3", "k_sample_writer_write_1ch_k1_m4", "k_sample_writer_write_2ch_k3_m2", "k_sample_writer_write_2ch_k1_m1"]:
+    add("K-" + h[2:], ["C08"], E + h, tier="quick", bound="1-2 channels, block of 2, carry-over k and write length m fixed per instance; all sample values",
+        functions=["encode::FlacSampleWriter::write"],
+        contract="FlacSampleWriter::write with k samples carried over: blocks handed to the frame builder and to the MD5 are exactly the first floor((k+m)/F)*F samples of carry ++ input, in order, F at a time; the rest stays buffered in order",
+        stubs=["audio::Frame::fill_from_samples (recorder)", "encode::update_md5 (recorder; contract K-update_md5_bytes_*)", "encode::Encoder::encode (contract K-encoder_encode_*)"], timeout=300)
+for h in ["k_sample_writer_finalize_2ch_k3", "k_sample_writer_finalize_2ch_k1", "k_sample_writer_finalize_1ch_k0"]:
+    add("K-" + h[2:], ["C08", "C15"], E + h, tier="quick", bound="1-2 channels, 0-3 buffered samples; all values",
+        functions=["encode::FlacSampleWriter::finalize_inner"],
+        contract="FlacSampleWriter::finalize_inner: trailing partial PCM frame dropped, everything before it encoded and hashed as one last block, an empty block is never encoded, finalizes once, second call is a no-op",
+        stubs=["audio::Frame::fill_from_samples", "encode::update_md5", "encode::Encoder::encode", "encode::Encoder::finalize_inner"], timeout=300)
+for h in ["k_byte_writer_write_le_k1_m4", "k_byte_writer_write_be_k1_m4", "k_byte_writer_write_be_k3_m6", "k_byte_writer_write_be_k0_m3"]:
+    add("K-" + h[2:], ["C08"], E + h, tier="quick", bound="mono 16-bit, block of 2 samples, carry-over k and write length m bytes fixed per instance (incl. writes ending mid-sample); all byte values",
+        functions=["encode::FlacByteWriter::write", "byteorder::Endianness::bytes_to_le"],
+        contract="FlacByteWriter::write with k bytes carried over: blocks handed on are the first floor((k+m)/B)*B bytes of carry ++ input converted sample-wise to little-endian exactly once; the remainder stays buffered unconverted in input order",
+        stubs=["audio::Frame::fill_from_buf (recorder)", "encode::Encoder::encode"], timeout=300)
+for h in ["k_update_md5_bytes_w1", "k_update_md5_bytes_w2", "k_update_md5_bytes_w3", "k_update_md5_bytes_w4"]:
+    add("K-" + h[2:], ["C08", "C09"], E + h, tier="quick", bound="2 samples (the loop treats every sample alike); all values",
+        functions=["encode::update_md5"],
+        contract="update_md5: per sample, in order, exactly bytes_per_sample bytes are hashed: the little-endian two's-complement image",
+        stubs=["md5::Context::consume (recorder)"], timeout=100)
+for h in ["k_byte_reader_deliver_b1_left0", "k_byte_reader_deliver_b2_left2", "k_byte_reader_deliver_b2_left0"]:
+    add("K-" + h[2:], ["C07"], D + h, tier="quick", bound="abstract stream of 3 blocks x 4 bytes; three reader states (empty buffer mid-stream, last block partly / fully read); request sizes 1..5",
+        functions=["decode::FlacByteReader::read"],
+        contract="FlacByteReader::read delivers the next min(n, rest of block) bytes of the stream in order exactly once and reports the end only after the last byte",
+        stubs=["decode::Decoder::read_frame (abstract stream)", "audio::Frame::to_buf (abstract bytes)"], timeout=300)
+P("C08", "model_checking",
+  "Chunking independence at the place it is implemented: the carry-over/draining logic of FlacSampleWriter::write and FlacByteWriter::write (both byte orders, writes ending mid-sample) hands on exactly "
+  "the whole blocks of the concatenated input, in order, and keeps the rest; finalize drops a trailing partial PCM frame and never encodes an empty block; the MD5 is fed the little-endian image of "
+  "exactly those samples. By induction over calls the encoded blocks depend on the concatenation only.",
+  BASE_NOTE, ["FlacChannelWriter (MultiZip over chunk iterators does not finish)", "audio::Frame::fill_from_* de-interleaving (replaced by recorders)", "equality across front ends and run-to-run determinism (argued: no randomness, time or hash-order dependence in encode.rs)"])
